@@ -45,6 +45,7 @@ int firstOf(const Pair *p);
 template<typename T> T half(T v);
 template<typename T> T biggest();
 template<typename T, typename U> void store(T first, U second);
+template<typename T> void note(T v);
 int normalize(std::string &text);
 int normalize(const std::string &text);
 int64_t scale64(int64_t v, int k);
